@@ -362,17 +362,35 @@ func (p *parser) chunks(elemBits int) (count uint64, data []byte) {
 			need = n * uint64(elemBits/8)
 		}
 		var got uint64
+		var chunkData []byte
 		for got < need {
 			d := p.peek()
 			if d.K != DATA {
 				p.fail("expected array data, got " + d.String())
 			}
 			p.pos++
-			data = append(data, d.B...)
+			chunkData = append(chunkData, d.B...)
 			got += uint64(len(d.B))
 		}
 		if got != need {
 			p.fail("array data overruns chunk")
+		}
+		if elemBits == 1 && (count-n)%8 != 0 {
+			// a bit-array chunk that does not start on a byte boundary (an earlier chunk held a number of bits that is
+			// not a multiple of 8): the array is the concatenation of the chunks' bits, lowest bit of each byte first
+			for i := uint64(0); i < n; i++ {
+				bit := chunkData[i/8] >> (i % 8) & 1
+				pos := count - n + i
+				if pos/8 >= uint64(len(data)) {
+					data = append(data, 0)
+				}
+				data[pos/8] |= bit << (pos % 8)
+			}
+		} else {
+			data = append(data, chunkData...)
+			if elemBits == 1 && n%8 != 0 && len(data) > 0 {
+				data[len(data)-1] &= byte(1<<(n%8)) - 1 // bits beyond the chunk's count carry no data
+			}
 		}
 		// tolerate empty data events after a zero-length or complete chunk
 		for p.pos < len(p.log) && p.log[p.pos].K == DATA && len(p.log[p.pos].B) == 0 {
